@@ -90,6 +90,11 @@ def spec(tier):
     for w in ("assign_refused", "tick_refused", "suspended", "fail", "ok"):
         obs.append(twin(f"live_{w}", "c02.live_containers", lsym, lfix, w, group="twins_live"))
 
+    # A3b: one pipeline split over two containers that are both suspended (write-outs of different length):
+    # an operator stays with its live container until that container's own write-out ends
+    obs.append(CH(name="split_pipeline_suspensions", harness="c10.two_suspensions",
+                  sym=dict(ramA=I(1, 70), ramB=I(1, 70), dA=I(1, 2), dB=I(1, 2)),
+                  fixed=dict(K=8, cpuA=1, cpuB=2, same_pipeline=True, tag="C02"), timeout=900))
     # A4: histories produced by full simulations
     algos = [("naive", 1, False), ("priority", 1, False), ("priority-pool", 2, False), ("overbook", 1, True)]
     for algo, pools, oc in algos:
